@@ -77,18 +77,19 @@ theorem C12_dry_failing_call (H : Bytes → Bytes) (pr : Proj) {i : Nat} {t : Ta
   rw [runBody_dry_exit Cfg.fixed H pr rfl rfl i t e s, if_pos hb]
 
 /-- `checker.OnError` is unreachable in dry mode WHATEVER the call site of `statusOnError` (TS4): its
-only call sits under `!(e.Dry)` in the regenerated guard table.  (The two call sites of
+only call — `OnError` on the value returned by `fingerprint.NewSourcesChecker`, whatever the local
+that holds it is called — sits under `!(e.Dry)` in the regenerated guard table.  (The two call sites of
 `statusOnError` itself — declined prompt, failed command — need no guard of their own any more.) -/
 theorem onError_unreachable_when_dry :
-    TaskModel.Gen.DryWiring.guards.filter (fun g => g.1 == "Executor.statusOnError:checker.OnError") =
-      [("Executor.statusOnError:checker.OnError", "!(e.Dry)")] := by
+    TaskModel.Gen.DryWiring.guards.filter (fun g => g.1 == "Executor.statusOnError:(fingerprint.NewSourcesChecker).OnError") =
+      [("Executor.statusOnError:(fingerprint.NewSourcesChecker).OnError", "!(e.Dry)")] := by
   decide
 
 /-- the dry wiring read off the regenerated tables -/
 def cfgOfTables : Cfg :=
   { listDry := TaskModel.Gen.DryWiring.calls.any (fun c => c.1 == "Executor.ToEditorOutput:fingerprint.WithDry" && c.2 == "true"),
     dryMkdir := !TaskModel.Gen.DryWiring.guards.any (fun c => c.1 == "Executor.RunTask:e.mkdir" && c.2 == "!e.Dry"),
-    dryOnError := !TaskModel.Gen.DryWiring.guards.any (fun c => c.1 == "Executor.statusOnError:checker.OnError" && c.2 == "!(e.Dry)") }
+    dryOnError := !TaskModel.Gen.DryWiring.guards.any (fun c => c.1 == "Executor.statusOnError:(fingerprint.NewSourcesChecker).OnError" && c.2 == "!(e.Dry)") }
 
 /-- the tree under test is wired as the property demands -/
 theorem wiring_is_fixed : cfgOfTables = Cfg.fixed := by
